@@ -40,7 +40,7 @@ pub fn run(args: &Args) {
         let mut nsaves = 0u32;
         let mut last_saved: Option<(usize, Vec<String>)> = None; // (book, history length marker) for the side-effect-free clause
         let nops = rng.range(4, 30);
-        let mut text = |uid: &mut u32, rng: &mut Rng| {
+        let text = |uid: &mut u32, rng: &mut Rng| {
             *uid += 1;
             match rng.below(5) {
                 0 => format!("s{}-{} <&>", k, uid),
